@@ -641,6 +641,9 @@ func (m *chainMachine) actions(prof cmProfile) map[string]func(*rapid.T) {
 	add("advance", m.aAdvance)
 	add("marketRound", m.aMarketRound)
 	add("withdrawThenClose", m.aWithdrawThenClose)
+	if prof.weights != nil && prof.weights["boundaryDeploy"] > 0 {
+		add("boundaryDeploy", m.aBoundaryDeploy)
+	}
 	if prof.weights != nil && prof.weights["nearMissBid"] > 0 {
 		add("nearMissBid", m.aNearMissBid)
 	}
